@@ -109,6 +109,22 @@ func (e *bEngine) applyContract(st *bState, con *Contract, callee *ssa.Function,
 		pkg = o.Pkg.Pkg.Path()
 	}
 	short := shortPkg(frameKey(callee))
+	if frameKey(callee) == frameKey(e.fn) && e.topBind != nil {
+		// a recursive call of the function under verification: its measure (decreases clause) must
+		// go down and stay non-negative, otherwise the recursion need not end (stack overflow)
+		for i, ds := range con.Raw["decreases"] {
+			dx, err := parser.ParseExpr(strings.TrimSpace(ds))
+			if err != nil {
+				panic(verr("%s: bad decreases clause %q", con.File, ds))
+			}
+			m0 := e.env(e.entry, e.entry, e.topBind, nil, con, pkg).Term(dx)
+			m1 := e.env(st, st, bind, nil, con, pkg).Term(dx)
+			e.oblige(st, "decreases", fmt.Sprintf("%s.%d", short, i), And(Le(ConstI(0), m1), Lt(m1, m0)), at)
+		}
+		if len(con.Raw["decreases"]) == 0 {
+			e.note("recursive call without a decreases clause: termination of the recursion is not checked")
+		}
+	}
 	for i, r := range con.Requires {
 		g := e.env(st, st, bind, nil, con, pkg).Term(r.Expr)
 		e.oblige(st, "requires", fmt.Sprintf("%s.%d", short, i), g, at)
@@ -374,6 +390,140 @@ func pureScalarLoop(h *ssa.BasicBlock) bool {
 	return true
 }
 
+type leafLoop struct {
+	body   map[*ssa.BasicBlock]bool
+	stores []*ssa.IndexAddr
+	exit   *ssa.BasicBlock
+	exitOn bool // the exit edge is taken when the header condition is exitOn
+	cond   ssa.Value
+}
+
+// leafArrayLoop recognises a loop whose body consists of scalar computation, element loads,
+// re-slicing, calls of functions outside the module (treated as pure) and stores into slice
+// elements, with a single exit at the header.
+func leafArrayLoop(h *ssa.BasicBlock) *leafLoop {
+	body := map[*ssa.BasicBlock]bool{h: true}
+	var stack []*ssa.BasicBlock
+	for _, p := range h.Preds {
+		if h.Dominates(p) && !body[p] {
+			body[p] = true
+			stack = append(stack, p)
+		}
+	}
+	for len(stack) > 0 {
+		b := stack[len(stack)-1]
+		stack = stack[:len(stack)-1]
+		for _, p := range b.Preds {
+			if !body[p] && h.Dominates(p) {
+				body[p] = true
+				stack = append(stack, p)
+			}
+		}
+	}
+	ll := &leafLoop{body: body}
+	iff, ok := h.Instrs[len(h.Instrs)-1].(*ssa.If)
+	if !ok || len(h.Succs) != 2 {
+		return nil
+	}
+	switch {
+	case body[h.Succs[0]] && !body[h.Succs[1]]:
+		ll.exit, ll.exitOn = h.Succs[1], false
+	case body[h.Succs[1]] && !body[h.Succs[0]]:
+		ll.exit, ll.exitOn = h.Succs[0], true
+	default:
+		return nil
+	}
+	ll.cond = iff.Cond
+	for b := range body {
+		for _, s := range b.Succs {
+			if !body[s] && b != h {
+				return nil // another exit (break, return)
+			}
+		}
+		for _, ins := range b.Instrs {
+			switch x := ins.(type) {
+			case *ssa.Phi:
+				if _, ok := x.Type().Underlying().(*types.Basic); !ok {
+					return nil
+				}
+			case *ssa.BinOp, *ssa.UnOp, *ssa.Convert, *ssa.ChangeType, *ssa.If, *ssa.Jump, *ssa.DebugRef, *ssa.Slice, *ssa.IndexAddr, *ssa.Index:
+			case *ssa.Store:
+				ia, ok := x.Addr.(*ssa.IndexAddr)
+				if !ok {
+					return nil
+				}
+				ll.stores = append(ll.stores, ia)
+			case *ssa.Call:
+				if f, ok := x.Call.Value.(*ssa.Function); !ok || isModuleFunc(f) {
+					return nil
+				}
+			default:
+				return nil
+			}
+		}
+	}
+	return ll
+}
+
+// skipLeafLoop performs the abstraction; false when the stored arrays cannot be named at the header.
+func (e *bEngine) skipLeafLoop(st *bState, fr *bFrame, h *ssa.BasicBlock, ll *leafLoop) bool {
+	var arrs []int
+	for _, ia := range ll.stores {
+		v, ok := fr.vals[ia.X]
+		if !ok {
+			return false
+		}
+		switch b := v.(type) {
+		case bSlice:
+			if b.nil_ {
+				return false
+			}
+			arrs = append(arrs, b.arr)
+		case bPtr:
+			arrs = append(arrs, b.obj)
+		default:
+			return false
+		}
+	}
+	for _, id := range arrs {
+		o := e.obj(st, id)
+		if !o.arr {
+			return false
+		}
+		o.elems = map[string]bVal{}
+		o.sym = e.freshName("loopwritten")
+		o.ver++
+	}
+	for _, ins := range h.Instrs {
+		if phi, ok := ins.(*ssa.Phi); ok {
+			fr.vals[phi] = e.symVal(st, e.freshName("loop."+phi.Name()), phi.Type())
+		}
+	}
+	// evaluate the header up to its condition with the unknown loop-carried values
+	for _, ins := range h.Instrs {
+		switch x := ins.(type) {
+		case *ssa.Phi, *ssa.DebugRef, *ssa.If:
+		case *ssa.BinOp:
+			fr.vals[x] = e.binop(st, x.Op, e.get(st, fr, x.X), e.get(st, fr, x.Y), x.Type())
+		default:
+			return false
+		}
+	}
+	c, ok := asScalar(e.get(st, fr, ll.cond))
+	if !ok {
+		return false
+	}
+	if ll.exitOn {
+		st.assumeBranch(c)
+	} else {
+		st.assumeBranch(Not(c))
+	}
+	fr.prev = fr.block
+	fr.block = ll.exit.Index
+	fr.pc = 0
+	return true
+}
+
 func (e *bEngine) pushFrame(st *bState, fn *ssa.Function, args []bVal, call ssa.CallInstruction, bindings []bVal) {
 	fr := &bFrame{fn: fn, vals: map[interface{}]bVal{}, visits: map[int]int{}, prev: -1}
 	for i, p := range fn.Params {
@@ -437,6 +587,17 @@ func (e *bEngine) runPath(st *bState, work *[]*bState, atReturn func(st *bState,
 		fr := st.frames[len(st.frames)-1]
 		fn := fr.fn.(*ssa.Function)
 		blk := fn.Blocks[fr.block]
+		if fr.pc == 0 && e.loopAbs && isLoopHeader(blk) && !pureScalarLoop(blk) && leafArrayLoop(blk) != nil {
+			// loopabs, second kind: a loop that only moves scalars in and out of slice elements
+			// (decode / encode loops) is skipped: the arrays it stores to and its loop-carried
+			// scalars become unknown, and execution continues at its exit with the loop condition
+			// false.  Panics inside such a loop (index out of range) are NOT checked.
+			la := leafArrayLoop(blk)
+			if e.skipLeafLoop(st, fr, blk, la) {
+				e.note("loopabs: loops that only copy scalars to / from slice elements are skipped (stored arrays and loop-carried values unknown afterwards; run-time panics inside them are not checked)")
+				continue
+			}
+		}
 		if fr.pc == 0 && e.loopAbs && isLoopHeader(blk) && pureScalarLoop(blk) {
 			// loopabs: a loop that only computes scalars is cut with the invariant `true`: its header
 			// is entered once with every loop-carried value unknown; the back edge adds nothing
@@ -612,7 +773,29 @@ func (e *bEngine) runPath(st *bState, work *[]*bState, atReturn func(st *bState,
 			v := e.get(st, fr, x.X)
 			if x.Low != nil {
 				if lo, ok := asScalar(e.get(st, fr, x.Low)); !ok || !st.norm(lo).IsConst() || st.norm(lo).Val.Sign() != 0 {
-					panic(verr("slicing with a non-zero lower bound at %s", e.fp.fset.Position(x.Pos())))
+					// s[lo:hi] with lo != 0: a view of hi-lo elements whose contents are not related to
+					// the original's (element contents are not tracked through such views)
+					b, isSl := v.(bSlice)
+					if !ok || !isSl || b.nil_ {
+						panic(verr("slicing with a non-zero lower bound at %s", e.fp.fset.Position(x.Pos())))
+					}
+					e.note("s[lo:] with lo != 0 yields a view whose elements are unrelated to the original's (contents not tracked)")
+					hi := b.len
+					if x.High != nil {
+						hi, _ = asScalar(e.get(st, fr, x.High))
+					}
+					if e.safety && hi != nil {
+						e.oblige(st, "slice-bounds", fn.Name(), And(Le(ConstI(0), lo), Le(lo, hi)), e.fp.fset.Position(x.Pos()).String())
+					}
+					st.nextID++
+					o0 := e.obj(st, b.arr)
+					st.objs[st.nextID] = &bObject{id: st.nextID, typ: o0.typ, arr: true, elems: map[string]bVal{}, sym: e.freshName("view")}
+					nv := bSlice{arr: st.nextID, len: Sub(hi, lo)}
+					if b.cap != nil {
+						nv.cap = Sub(b.cap, lo)
+					}
+					fr.vals[x] = nv
+					break
 				}
 			}
 			switch b := v.(type) {
@@ -1364,6 +1547,7 @@ func (e *bEngine) verify(caseSpec string) {
 		e.obls = append(e.obls, o)
 	}
 	e.entry = st.clone()
+	e.topBind = bind
 	entryOld := shallowOld(e.entry)
 	e.pushFrame(st, fn, args, nil, nil)
 	returns := 0
